@@ -239,7 +239,7 @@ def clause_key_representation_sql(prog, rep, snap_s, rest_s):
 def fields_touched(prog, f, adt):
     names = set(fd["name"] for fd in adt["variants"][0]["fields"])
     out = set()
-    fs = [f] + [prog.fns[p] for p in prog.extent(f) if p in prog.fns and prog.fns[p].root == f.path]
+    fs = prog.family(f)
     for g in fs:
         for bb, s in g.stmts():
             for pl in [s["d"]] + [o["p"] for o in s.get("o", []) if "p" in o]:
